@@ -74,12 +74,14 @@ def init (c : Cfg) : St :=
 
 def spawnIf (b : Bool) (ks : List KPc) : List KPc := if b then ks ++ [.lock] else ks
 
+/-- after reading `isClosed` under the lock -/
+def checkNext (kn : Knobs) (closed : Bool) : KPc :=
+  if closed then .unlock false else if kn.setInLock then .set else .closeC
+
 /-- one statement of `Close()` executed by closer `i` at `pc` -/
 def closeStep (kn : Knobs) (i : Nat) (s : St) : KPc → Option St
   | .lock => if s.mutex = none then some { s with ks := s.ks.set i .check, mutex := some i } else none
-  | .check =>
-      let pc' : KPc := if s.isClosed then .unlock false else if kn.setInLock then .set else .closeC
-      some { s with ks := s.ks.set i pc' }
+  | .check => some { s with ks := s.ks.set i (checkNext kn s.isClosed) }
   | .set => some { s with ks := s.ks.set i .closeC, isClosed := true }
   | .closeC =>
       if s.chC then some { s with fatal := some "panic: close of closed channel" }
@@ -193,17 +195,17 @@ def enabled (kn : Knobs) (c : Cfg) (s : St) : List Ev :=
 
 def fatal (s : St) : Bool := s.fatal.isSome
 
-def allKDone (s : St) : Bool := s.ks.all (· == .done)
+def allKDone (s : St) : Bool := s.ks.all (fun pc => decide (pc = KPc.done))
 
 /-- every goroutine of the subscription has exited and its upstream connection is closed -/
 def final (s : St) : Bool :=
-  allKDone s && s.l == .done && s.cq == .done && s.rq == .done && s.upClosed
-    && (s.h == .done || s.h == .serving)
+  allKDone s && decide (s.l = .done) && decide (s.cq = .done) && decide (s.rq = .done) && s.upClosed
+    && decide (s.h = .done ∨ s.h = .serving)
 
 /-- the subscription is running and nothing has asked it to end -/
 def live (s : St) : Bool :=
-  (s.l == .sel || s.l == .write) && (s.rq == .upRead || s.rq == .sendR) && s.cq == .recvQ
-    && !s.isClosed && s.h == .serving && s.ks.isEmpty
+  decide (s.l = .sel ∨ s.l = .write) && decide (s.rq = .upRead ∨ s.rq = .sendR) && decide (s.cq = .recvQ)
+    && !s.isClosed && decide (s.h = .serving) && decide (s.ks = [])
 
 def terminal (kn : Knobs) (c : Cfg) (s : St) : Bool := (enabled kn c s).isEmpty
 
